@@ -27,7 +27,8 @@ type onceObj struct {
 }
 
 type timerObj struct {
-	dur     int64 // duration in ns when known (0 = unknown): lazy timers fire shortest first
+	dur     int64 // duration in ns when known (0 = unknown)
+	armed   int64 // virtual time at which the timer was armed: lazy timers fire in the order of armed+dur
 	id      int
 	ch      *Chan
 	fn      Value
@@ -454,8 +455,17 @@ func (w *World) execSelect(th *Thread, fr *frame, in *ssa.Select) {
 
 // ---- timers -----------------------------------------------------------------------------------
 
+// deadline of a timer in virtual time (saturating).
+func (t *timerObj) deadline() int64 {
+	d := t.armed + t.dur
+	if d < t.armed || t.dur >= 1<<61 {
+		return 1 << 62
+	}
+	return d
+}
+
 func (w *World) newTimer(desc string) *timerObj {
-	t := &timerObj{id: len(w.timers), desc: desc}
+	t := &timerObj{id: len(w.timers), desc: desc, armed: w.vtime}
 	w.timers = append(w.timers, t)
 	return t
 }
@@ -628,19 +638,24 @@ func (w *World) schedule(main *Thread) {
 		if !curEnabled && len(en) == 0 && len(arriving) == 0 {
 			if len(timers) > 0 {
 				// nothing else can run: time passes; the timers with the shortest duration fire first
+				// virtual time: a timer is due at (virtual time when it was armed) + its duration; computation
+				// takes no time, time advances to the next deadline only when nothing else can run
 				min := int64(-1)
 				for _, t := range timers {
-					if min < 0 || t.dur < min {
-						min = t.dur
+					if d := t.deadline(); min < 0 || d < min {
+						min = d
 					}
 				}
 				var first []*timerObj
 				for _, t := range timers {
-					if t.dur == min {
+					if t.deadline() == min {
 						first = append(first, t)
 					}
 				}
 				k := w.choose(len(first), DSched)
+				if min > w.vtime {
+					w.vtime = min
+				}
 				w.fireTimer(first[k])
 				continue
 			}
